@@ -51,6 +51,10 @@
        them ([C08_message_level_runs_are_interleaved]); Model/HSim.v executes them under any strategy
        ([C08_interleaving_strategies_are_schedules], [C08_interleaved_example]: the tick of one system simulation
        interrupted by the messages of another).
+       TIE: the harness records every delivery the delaying bus makes to the real schedulers and components and
+       Oracle/HReplay.v replays them as moves of Model/HSim.v, checking that the model has that very message in
+       flight (time, changes, callback); a real tick that replays IS a tick of (7)
+       ([C08_replayed_real_tick_is_an_interleaved_tick]), so the theorem is about that very execution.
    PARTIAL: interrupts arrive between master ticks (an interrupt racing with a running tick is the master machine's
    subject, C04/C07); per-topic queues with latency and acknowledging brokers are explored on the delaying bus (codes
    21/22): in the theorems a message is delivered in one step and a sender does not wait for an acknowledgement.  Besides the theorems the schedule-explicit models are evaluated
@@ -60,7 +64,7 @@
 From TV Require Import Base Model.Wiring Model.Ticker Model.Component Model.Sim Model.SimTime Model.Inline Model.NSim Oracle.SimCheck
   Proofs.WiringP Proofs.TickerP Proofs.SimP Proofs.EqvP Proofs.ParDevP Proofs.InlineP Proofs.InlineScopeP Proofs.InlineLatestP Proofs.ScheduleP Proofs.SimTraceP
   Model.Interrupts Model.NNSim Proofs.FrameP Proofs.NScheduleP Proofs.NDetP Proofs.NDetScopeP Proofs.NDetXP Proofs.SimNTP Proofs.MsgLevelP
-  Model.HSim Proofs.MsgTreeP Proofs.HSimP.
+  Model.HSim Proofs.MsgTreeP Proofs.HSimP Oracle.HReplay.
 
 (* two arbitrary runs of the same tick (same wiring, time, roots), possibly incomplete and
    under different answer orders, whose answers are given by one deterministic function of
@@ -496,3 +500,9 @@ Proof.
   destruct (hxrun_from_start par_cfg (table_dev par_tab) (hpick_rot 1) 2000 3 0 par_xscript) as [[sA obA]|] eqn:E; [|vm_compute in E; discriminate].
   exists sA, obA. apply (C08_interleaving_strategies_are_schedules _ _ _ _ _ _ _ _ _ E).
 Qed.
+
+(* a master tick of the real schedulers on the delaying bus whose recorded deliveries replay in the model (Oracle/HReplay.v:
+   each delivery is a possible move and carries the message the model has in flight) is a tick of (7) *)
+Theorem C08_replayed_real_tick_is_an_interleaved_tick : forall cfg devf f time n s roots msgs k' s' ob,
+  htick_replay cfg devf f time n s roots msgs = RR_ok k' s' ob -> hmtick cfg devf f s time roots s' ob.
+Proof. intros. eapply htick_replay_sound. eassumption. Qed.
